@@ -42,7 +42,7 @@ def plan(tier):
 
 
 def floors(tier):
-    return {"nontrivial": 8, "counter:cells_judged": 120, "counter:runs": 200000, "counter:events_simulated": 1000000,
+    return {"nontrivial": 8, "counter:cells_judged": 80, "counter:runs": 200000, "counter:events_simulated": 1000000,
             "class:first-step": 2, "class:chain": 2, "class:immigration-death": 2, "class:sir-final-size": 2}
 
 
